@@ -105,7 +105,8 @@ def obs6(o):
             return "O6Oom"
         return "O6Panic"
     if p[0] == "ABORT":
-        return "O6Oom"
+        # allocation failure on an absurd declared length (excluded by the property); any other death of the process is a crash
+        return "O6Oom" if o.startswith("ABORT oom") else "O6Panic"
     return None
 
 
@@ -199,13 +200,20 @@ def run(chk, tier, seed):
     for cid in list(meta)[:4]:
         m = meta[cid]
         chk.sample({"case": cid, "type": TG.rust_ty(U["roots"][m["root"]]["ty"]), "bytes": m["bytes"].hex()[:80]})
+    # library types outside the universe: crafted inputs (mutated valid encodings, boundary lengths, truncations, random bytes)
+    from . import libcases
+    listed0 = {e["id"]: e for e in C.known_findings("C06")}
+    kmap = [(k, names) for k, names in (("F14", {"systemtime", "systemtime_before_epoch"}), ("F13", {"bitvec", "bitvec_empty", "bitset"}))
+            if listed0.get(k, {}).get("status") == "open"]
+    lib_hits = libcases.run_malformed(chk, binary, rng, 120 if tier == "quick" else 700, known=kmap)
+    chk.cov["library_malformed_known_hits"] = lib_hits
     # known findings
     KF = [("K1a", "kf bulk_invalid_bool", "Vec<bool> read in bulk holds the byte 7 (invalid bool materialised)"),
           ("K1b", "kf bulk_invalid_char", "Vec<char> read in bulk holds the surrogate 0xD800"),
           ("K1c", "kf bulk_invalid_enum", "Vec<repr(u8) enum with 3 variants> read in bulk holds discriminant 200"),
           ("F7", "kf vec_overflow", "bulk Vec<u32> reader: elem_size * num_elems unchecked (debug: overflow panic; release: a Vec claiming 2^62+1 elements over 4 bytes)"),
-          ("K2a", "kf systemtime_panic", "SystemTime from an untrusted u128 panics (overflow adding duration)"),
-          ("K2b", "kf bitvec_setlen", "BitVec claims 1000 bits over one storage word (set_len beyond storage)"),
+          ("F14", "kf systemtime_panic", "SystemTime from an untrusted u128 panics (overflow adding duration)"),
+          ("F13", "kf bitvec_setlen", "BitVec claims 1000 bits over one storage word (set_len beyond storage)"),
           ("K2c", "kf trait_name_panic", "a stored schema containing a trait name with an unknown +segment panics plain load::<u32>")]
     listed = {e["id"]: e for e in C.known_findings("C06")}
     kobs = C.run_harness(binary, ["%s %s" % (k, l) for k, l, _ in KF])
